@@ -287,7 +287,8 @@ func checkDropped(line, text string, r adaptRes, o *core.Outcome) {
 	}
 	if r.dropped != "" {
 		o.Tags = append(o.Tags, "adapt:dropped-module")
-		o.Failures = append(o.Failures, core.Failure{Case: line, Class: "adapter-dropped-unmarshalable-module",
+		// the class names WHAT json.Marshal refused, so that one known refusal does not excuse another
+		o.Failures = append(o.Failures, core.Failure{Case: line, Class: droppedClass(r.dropped),
 			What: fmt.Sprintf("the adapter accepted the text but could not marshal part of the config (it is missing from / null in the output): warning %q; input %q", clip(r.dropped, 300), clip(text, 400))})
 		return
 	}
@@ -296,4 +297,16 @@ func checkDropped(line, text string, r adaptRes, o *core.Outcome) {
 		o.Failures = append(o.Failures, core.Failure{Case: line, Class: "adapter-dropped-unmarshalable-module",
 			What: fmt.Sprintf("the adapted JSON has null where a module object is expected, at %s; input %q", p, clip(text, 400))})
 	}
+}
+
+// droppedClass: `adapter-dropped-unmarshalable-module`, narrowed for the one refusal that is a known finding of the
+// tree: a non-finite float (Dispenser.ScalarVal turns the unquoted tokens Inf, +Inf, -Inf, Infinity, NaN into float64).
+func droppedClass(msg string) string {
+	if strings.HasPrefix(msg, "json: unsupported value: ") {
+		v := strings.TrimPrefix(msg, "json: unsupported value: ")
+		if v == "+Inf" || v == "-Inf" || v == "NaN" {
+			return "adapter-dropped-unmarshalable-module:non-finite-float"
+		}
+	}
+	return "adapter-dropped-unmarshalable-module"
 }
